@@ -1,7 +1,13 @@
 #!/bin/bash
-# usage: tools/seeded_eval.sh <worktree-with-change-applied> <ID> [tier] — exploration only: imports kaira from the worktree (KAIRA_TREE), /repo untouched.
-wt=$1; id=$2; tier=${3:-quick}
-cd /verif && KAIRA_TREE=$wt ./check $id --tier $tier --no-evidence > /tmp/seedwork/eval_$(basename $wt)_$tier.log 2>&1; rc=$?
-echo "$(basename $wt) $id tier=$tier check_rc=$rc violations=$(grep -c '^VIOLATION' /tmp/seedwork/eval_$(basename $wt)_$tier.log)"
-grep "^  clause" /tmp/seedwork/eval_$(basename $wt)_$tier.log | head -4 | cut -c1-230
-grep "HARNESS" /tmp/seedwork/eval_$(basename $wt)_$tier.log | head -3 | cut -c1-200
+# usage: tools/seeded_eval.sh <dir-with-patch.diff> <ID> [tier]
+# Exploration only: a fresh scratch worktree of /repo's HEAD gets the patch, kaira is imported from it (KAIRA_TREE); /repo is untouched.
+src=$1; id=$2; tier=${3:-quick}
+tag=$(basename $src)
+wt=/tmp/evalwt_${tag}_$$
+git -C /repo worktree add -q --detach $wt HEAD || exit 2
+if ! git -C $wt apply $src/patch.diff; then echo "$tag: patch does not apply to current HEAD"; git -C /repo worktree remove --force $wt; exit 2; fi
+cd /verif && KAIRA_TREE=$wt ./check $id --tier $tier --no-evidence > /tmp/seedwork/eval_${tag}_$tier.log 2>&1; rc=$?
+git -C /repo worktree remove --force $wt
+echo "$tag $id tier=$tier check_rc=$rc violations=$(grep -c '^VIOLATION' /tmp/seedwork/eval_${tag}_$tier.log)"
+grep "^  clause" /tmp/seedwork/eval_${tag}_$tier.log | head -4 | cut -c1-230
+grep "HARNESS" /tmp/seedwork/eval_${tag}_$tier.log | head -3 | cut -c1-200
